@@ -194,11 +194,45 @@ def inline_helpers(ctree, helpers, sigs, depth=0):
         body = _map_tree(body, fs)
         return pre + body + [('label', end, line)]
 
+    def nested(e):
+        """first helper call nested in e (not e itself), when everything else in e is free of calls and deviates"""
+        hits = [x for x in ir.subexprs(e) if x[0] == 'call' and x[1].split('::')[-1] in helpers]
+        if len(hits) != 1:
+            return None
+        h = hits[0]
+        others = [x for x in ir.subexprs(e) if x is not h and x[0] in ('call', 'draw') and x not in list(ir.subexprs(h))[1:]]
+        others = [x for x in others if not (x[0] == 'call' and x is e)]
+        if any(x[0] == 'draw' or (x[0] == 'call' and not tv.PURE_CALL.search(x[1])) for x in others):
+            return None
+        return h
+
+    def hoist(s, exprs, rebuild):
+        for k, e in enumerate(exprs):
+            h = nested(('op', 'wrap', e)) if e is not None else None
+            if h is not None:
+                _INL[0] += 1
+                tmp = ('var', 'inl%d__ret' % _INL[0])
+                pre = expand(h[1].split('::')[-1], list(h[2:]), tmp, s[-1])
+
+                def sub(x, _h=h, _t=tmp):
+                    return _t if x == _h else x
+                new = [ir.map_expr(sub, y) if (j == k and y is not None) else y for j, y in enumerate(exprs)]
+                return pre + [rebuild(new)]
+        return None
+
     def fs(s):
         if s[0] == 'call' and s[1].split('::')[-1] in helpers:
             return expand(s[1].split('::')[-1], list(s[2]), None, s[3])
         if s[0] == 'assign' and s[2][0] == 'call' and s[2][1].split('::')[-1] in helpers and s[1][0] == 'var':
             return expand(s[2][1].split('::')[-1], list(s[2][2:]), s[1], s[3])
+        if s[0] == 'call':
+            r = hoist(s, list(s[2]), lambda new, _s=s: ('call', _s[1], tuple(new), _s[3]))
+            if r:
+                return r
+        if s[0] == 'assign':
+            r = hoist(s, [s[2]], lambda new, _s=s: ('assign', _s[1], new[0], _s[3]))
+            if r:
+                return r
         return [s]
     return _map_tree(ctree, fs)
 
